@@ -16,8 +16,9 @@ RULE = (
     "Model-based histories (drawn step sequences, <= 12 quick / 30 thorough steps) over the process: ok_call (a nested "
     "differentiation with a closed-form answer), failing_call(depth d <= 3, fault point, catch level e) where a fault is injected "
     "at the k-th operation of the forward evaluation (a user primitive raising on its k-th invocation, or a plain raise), at the "
-    "k-th rule of the backward pass (a user primitive whose VJP/JVP raises), or at trace exit (the 'Output seems independent of "
-    "input' warning promoted to an error), at nesting depth d, and is caught inside enclosing level e - whose function then "
+    "k-th rule of the backward pass (a user primitive whose VJP/JVP raises), at trace exit (the 'Output seems independent of "
+    "input' warning promoted to an error), or inside a make_jvp operator object that was built outside every differentiation and is "
+    "called at the innermost level (stored_jvp), at nesting depth d, and is caught inside enclosing level e - whose function then "
     "continues with further nested differentiations and must still return the closed-form value - or not at all; "
     "closure_fault (a VJP closure fails part-way through its backward pass on a graph with fan-out and is then called again); "
     "reentrant (a derivative rule that itself calls grad; recursion through grad); canary. After every step: a table of 25 "
@@ -252,12 +253,12 @@ def body(max_steps, c):
             # ---- failing_call ------------------------------------------------------------------------------------------------
             depth = c.int(1, 3)
             modes = "".join(c.choice("rf") for _ in range(depth + 1))
-            fault = c.choice(["forward_prim", "forward_raise", "backward_rule", "trace_exit"])
+            fault = c.choice(["forward_prim", "forward_raise", "backward_rule", "trace_exit", "stored_jvp"])
             catch = c.int(0, depth)  # 0 = not caught inside any differentiated function (the harness catches it)
             k = c.int(1, 3)
             history.append(["failing_call", modes, fault, catch, k, x0])
             state["count"] = 0
-            state["boom_at"] = k if fault == "forward_prim" else None
+            state["boom_at"] = k if fault in ("forward_prim", "stored_jvp") else None
             state["bwd_fail"] = fault == "backward_rule"
             state["bwd_count"], state["bwd_at"] = 0, k
             try:
@@ -350,8 +351,19 @@ def failing_nested(modes, fault, catch, x0, P):
     import autograd.numpy as anp
 
     depth = len(modes) - 1
+    push = None
+    if fault == "stored_jvp":
+        # a forward-mode operator object built here, outside every differentiation, and called (and failing) at the innermost level
+        def chain(w):
+            for _ in range(3):
+                w = P["fwd_boom"](w) * 1.0
+            return w
+
+        push = autograd.make_jvp(chain)(x0)
 
     def faulty_leaf(x):
+        if fault == "stored_jvp":
+            return push(x * 1.0)[1]
         if fault == "forward_prim":
             y = x
             for _ in range(3):
